@@ -595,17 +595,43 @@ def strategy_table(ctx):
             kv = const_val(k)
             if isinstance(kv, str):
                 table.setdefault(kv, set()).update(possible(v))
+    def literal(e, depth=0):
+        """a display reached through one local name, a module-level constant, or list()/tuple()/dict() of one"""
+        if isinstance(e, (ast.Dict, ast.List, ast.Tuple)):
+            return e
+        if depth > 3:
+            return None
+        if isinstance(e, ast.Call) and dotted(e.func) in ('list', 'tuple', 'dict') and len(e.args) == 1 and not e.keywords:
+            return literal(e.args[0], depth + 1)
+        if isinstance(e, ast.Name):
+            ds = [v for v, k, s_ in defs.get(e.id, []) if k == 'assign']
+            if len(ds) == 1:
+                return literal(ds[0], depth + 1)
+            if not ds:
+                try:
+                    return literal(repo.module_assign(mf.MNB, e.id), depth + 1)
+                except AnalysisError:
+                    return None
+        return None
     for n in walk_no_nested(fn):
         if isinstance(n, ast.Call):
             d = dotted(n.func) or ''
-            if (d.endswith('Strategies') or d.endswith('.update')) and n.args and isinstance(n.args[0], ast.Dict):
-                dict_items(n.args[0])
+            if (d.endswith('Strategies') or d.endswith('.update')) and n.args:
+                lit = literal(n.args[0])
+                if isinstance(lit, ast.Dict):
+                    dict_items(lit)
+            if d.endswith('.transients.extend') and n.args:
+                lit = literal(n.args[0])
+                if isinstance(lit, (ast.List, ast.Tuple)):
+                    transients.extend(const_val(e) for e in lit.elts)
         if isinstance(n, ast.Assign):
             for t in n.targets:
                 if isinstance(t, ast.Subscript) and isinstance(const_val(t.slice), str):
                     table.setdefault(const_val(t.slice), set()).update(possible(n.value))
-                if isinstance(t, ast.Attribute) and t.attr == 'transients' and isinstance(n.value, (ast.List, ast.Tuple)):
-                    transients.extend(const_val(e) for e in n.value.elts)
+                if isinstance(t, ast.Attribute) and t.attr == 'transients':
+                    lit = literal(n.value)
+                    if isinstance(lit, (ast.List, ast.Tuple)):
+                        transients.extend(const_val(e) for e in lit.elts)
     # {path: <strategy> for path in strategies.transients}: one entry per transient path
     for n in walk_no_nested(fn):
         if isinstance(n, ast.Call) and n.args and isinstance(n.args[0], ast.DictComp):
